@@ -1,4 +1,5 @@
-\* C06 thorough (liveness): 3 nodes, 1 id, 2 CAS, 1 fault (partition, restart or duplicate delivery), blocking watcher on node 1.
+\* C06 thorough (liveness): 3 nodes, 1 id, 2 CAS, 1 fault (partition, restart or duplicate delivery),
+\* blocking watcher on node 1.
 CONSTANTS
   N = 3
   NI = 1
@@ -14,6 +15,11 @@ CONSTANTS
   AllowGarbage = FALSE
   AllowPartition = TRUE
   AllowJunkPP = FALSE
+  GateNodes = {}
+  InboxCap = 1
+  VersionTest = TRUE
+  MaxDel = 0
+  ObsoleteTimeout = 1
   ConsumeNet = TRUE
   Ideal = TRUE
   Ghost = FALSE
